@@ -136,6 +136,7 @@ type FnCtx struct {
 	heapSort  map[string]Sort
 	assigns   []assignLoc
 	hasFrame  bool
+	counterFallback bool
 	allocBnd  *Term
 	notes     []string
 	unsup     []string
